@@ -471,6 +471,45 @@ pub fn deviate(rng: &mut Rng, s: &mut Sym, which: usize) -> Option<String> {
             push_sd(obj_at(s, &site)?, json!(decoy(rng)));
             Some("ok_extra_decoy".into())
         }
+        22 => {
+            // a reference that merely looks like the digest of a presented disclosure (digest plus
+            // '=' padding, a trailing blank or dot): by string comparison it matches nothing
+            if with_sd.is_empty() {
+                return None;
+            }
+            let site = rng.pick(&with_sd).clone();
+            let o = obj_at(s, &site)?;
+            let refs: Vec<String> = sd_refs(o).into_iter().filter(|r| r.starts_with('@')).collect();
+            if refs.is_empty() {
+                return None;
+            }
+            let r = rng.pick(&refs).clone();
+            let suffix = *rng.pick(&["=", "==", " ", "."]);
+            if let Some(Value::Array(a)) = o.get_mut("_sd") {
+                for e in a.iter_mut() {
+                    if e.as_str() == Some(r.as_str()) {
+                        *e = json!(format!("{}{}", r, suffix));
+                        break;
+                    }
+                }
+            }
+            Some("ok_lookalike_digest_matches_nothing".into())
+        }
+        23 => {
+            // the same for an array placeholder
+            for site in &arrs {
+                let a = arr_at(s, site)?;
+                for e in a.iter_mut() {
+                    if let Some(d) = e.get("...").and_then(Value::as_str).map(str::to_string) {
+                        if d.starts_with('@') {
+                            *e = json!({"...": format!("{}{}", d, rng.pick(&["=", "==", " "]))});
+                            return Some("ok_lookalike_placeholder_matches_nothing".into());
+                        }
+                    }
+                }
+            }
+            None
+        }
         _ => {
             // empty-array disclosure value, explicit nulls etc. (result defined; library may refuse)
             let i = s.discs.len();
@@ -482,7 +521,7 @@ pub fn deviate(rng: &mut Rng, s: &mut Sym, which: usize) -> Option<String> {
     }
 }
 
-pub const N_DEVIATIONS: usize = 22;
+pub const N_DEVIATIONS: usize = 25;
 
 fn to_cred(s: &Sym, issuer: usize) -> CredSpec {
     CredSpec::Byz { issuer, typ: None, payload: s.payload.clone(), disclosures: s.discs.iter().map(|d| d.to_string()).collect() }
@@ -532,6 +571,67 @@ pub fn gen_c08(rng: &mut Rng, tier: Tier) -> MsgScn {
                 c.faults.push(crate::faults::Fault::KeepMask(rng.next_u64()));
                 cases.push(c);
             }
+        }
+    }
+    // a long well-formed chain of nested disclosures (each hidden member's value hides the next),
+    // and the same chain with one deviation at its far end
+    {
+        let n = 18 + rng.usize(match tier {
+            Tier::Quick => 14,
+            Tier::Thorough => 60,
+        });
+        let mut chain = |far_end: usize, rng: &mut Rng| -> Sym {
+            let mut discs: Vec<Value> = Vec::new();
+            for i in 0..n {
+                let inner = if i + 1 < n {
+                    if i % 3 == 2 {
+                        json!({"k": i, "arr": [{"...": format!("@{}", i + 1)}, "plain"]})
+                    } else {
+                        json!({"k": i, "_sd": [format!("@{}", i + 1)]})
+                    }
+                } else {
+                    json!("bottom")
+                };
+                // a disclosure referenced from an array placeholder is [salt, value]
+                let from_array = i > 0 && (i - 1) % 3 == 2;
+                discs.push(if from_array { json!([salt(rng), inner]) } else { json!([salt(rng), format!("n{}", i), inner]) });
+            }
+            let last = n - 1;
+            match far_end {
+                1 => {
+                    // duplicate digest at the far end
+                    let r = format!("@{}", last);
+                    let parent = &mut discs[last - 1];
+                    let pl = parent.as_array().map(|a| a.len()).unwrap_or(0);
+                    if let Some(v) = parent.get_mut(pl - 1) {
+                        if let Some(Value::Array(a)) = v.get_mut("_sd") {
+                            a.push(json!(r));
+                        } else if let Some(Value::Array(a)) = v.get_mut("arr") {
+                            a.push(json!({"...": r}));
+                        }
+                    }
+                }
+                2 => {
+                    // wrong arity at the far end
+                    let a = discs[last].as_array().cloned().unwrap_or_default();
+                    discs[last] = if a.len() == 3 { json!([a[0], a[2]]) } else { json!([a[0], "name", a[1]]) };
+                }
+                _ => {}
+            }
+            let mut p = Map::new();
+            p.insert("_sd".into(), json!(["@0"]));
+            p.insert("_sd_alg".into(), json!("sha-256"));
+            p.insert("iss".into(), json!(iss[0].iss));
+            p.insert("exp".into(), json!(now + 86400));
+            Sym { payload: Value::Object(p), discs }
+        };
+        for far_end in 0..3 {
+            let s = chain(far_end, rng);
+            let ci = creds.len();
+            creds.push(to_cred(&s, 0));
+            let pi = pres.len();
+            pres.push(PresSpec::Direct { cred: ci, picks: (0..s.discs.len()).collect() });
+            cases.push(mk_case(Base::Pres(pi), rng));
         }
     }
     // pairs of deviations
